@@ -27,6 +27,8 @@ def run(repo: Repo, chk: Check):
                       "prefix ends in a digit (so two calls can never return the same name)", floor=3)
     chk.rule("R05.f", "remove_labels maps a label to the index of the instruction that follows it and substitutes every label in "
                       "every remaining line with the same pattern for search and replacement", floor=4)
+    chk.rule("R05.i", "the substitution of labels touches operands only: text in quotes (HASH(\"...\"), STR(\"...\")) is never rewritten, whatever the "
+                      "functions of the program are called", floor=1)
     chk.guarded(r05a, repo, chk)
     chk.guarded(r05b, repo, chk)
     chk.guarded(rule_loop_labels, repo, chk, "R05.c")
@@ -95,6 +97,33 @@ def _pattern_templates(fn, cfg, rd):
     return out
 
 
+def _rewrite_group(fn):
+    """How re.sub's replacement treats a match: None = every match is rewritten; k = only matches in which group k took part
+    (replacement  lambda m: R if m.group(k) else m.group(0));  raises AnalysisError for any other callable."""
+    ks = set()
+    for c in ast.walk(fn):
+        if isinstance(c, ast.Call) and (norm(c.func) == "re.sub" or isinstance(c.func, ast.Attribute) and c.func.attr == "sub") and len(c.args) >= 2:
+            rep = c.args[1] if norm(c.func) == "re.sub" else c.args[0]
+            if isinstance(rep, ast.Lambda):
+                b = rep.body
+                par = rep.args.args[0].arg if rep.args.args else None
+                if isinstance(b, ast.IfExp) and isinstance(b.test, ast.Call) and norm(b.test.func) == f"{par}.group" and b.test.args \
+                        and isinstance(b.test.args[0], ast.Constant) and isinstance(b.test.args[0].value, int) and norm(b.orelse) == f"{par}.group(0)":
+                    ks.add(b.test.args[0].value)
+                else:
+                    raise AnalysisError(f"remove_labels: replacement function {norm(rep)[:70]} not understood")
+            else:
+                ks.add(None)
+    if len(ks) > 1:
+        raise AnalysisError("remove_labels: substitutions with different replacement disciplines")
+    return next(iter(ks)) if ks else None
+
+
+def _hits(rx, k, text):
+    """matches of rx in text that the substitution rewrites and that contain the label"""
+    return [m for m in rx.finditer(text) if MARK in m.group(0) and (k is None or (k <= rx.groups and m.group(k)))]
+
+
 def r05a(repo, chk):
     g = repo.mod("generate_code")
     qual = "CompilerPassGatherCode.remove_labels"
@@ -121,14 +150,22 @@ def r05a(repo, chk):
             chk.bad("R05.a", key, f"pattern template {templ!r} is not a valid regex: {e}", None, f"{g.path}:{node.lineno}")
             continue
         structure = [str(op) for op, _ in tree.data]
+        k = _rewrite_group(fn)
         bad = []
         for ch in sorted(alphabet):
-            if rx.search(MARK + ch) or rx.search("j " + MARK + ch + " x"):
+            if _hits(rx, k, MARK + ch) or _hits(rx, k, "j " + MARK + ch + " x"):
                 bad.append(f"matches inside '{MARK}{ch}...'")
-            if rx.search(ch + MARK) or rx.search("j x" + ch + MARK):
+            if _hits(rx, k, ch + MARK) or _hits(rx, k, "j x" + ch + MARK):
                 bad.append(f"matches inside '...{ch}{MARK}'")
-        must = [MARK, "j " + MARK, "  beq r0 r1 " + MARK, "jal " + MARK + " # c"]
-        miss = [m for m in must if not rx.search(m)]
+        must = [MARK, "j " + MARK, "  beq r0 r1 " + MARK, "jal " + MARK + " # c", 'beq r0 HASH("x") ' + MARK]
+        miss = [m for m in must if not _hits(rx, k, m)]
+        # quoted text is data: the name of a device or prefab whose hash the game computes from exactly these characters
+        quoted = ['s db Setting HASH("' + MARK + '")', 's db Setting HASH("my ' + MARK + ' x")', 'move r0 STR("' + MARK + '")']
+        inside = [q for q in quoted if _hits(rx, k, q)]
+        chk.judge("R05.i", f"generate_code:remove_labels:pattern template ({how}) leaves quoted text alone", not inside,
+                  f"pattern {templ!r} also rewrites a label name inside a quoted string ({inside[0] if inside else ''}): with remove_labels a function named 'update' turns "
+                  f"HASH(\"update\") into HASH(\"3\"), the hash of another name", {"template": templ, "rewrites_group": k},
+                  f"{g.path}:{node.lineno} in {qual}")
         chk.judge("R05.a", key, not bad and not miss,
                   f"pattern {templ!r} does not delimit whole labels: {bad[:4]}{' ...' if len(bad) > 4 else ''}"
                   f"{'; fails to match a whole-token label in ' + repr(miss) if miss else ''} "
@@ -445,7 +482,7 @@ def r05f(repo, chk):
         if not isinstance(c, ast.Call):
             continue
         f = norm(c.func)
-        if f in ("re.sub", "re.search") and c.args:
+        if f in ("re.sub", "re.search", "re.finditer") and c.args:
             (subs if f == "re.sub" else searches).append(_RC(c, c.args[0], c.args[1:]))
         elif isinstance(c.func, ast.Attribute) and c.func.attr in ("sub", "search") and isinstance(c.func.value, ast.Name):
             src = compiled_source(c.func.value, c)
@@ -509,6 +546,12 @@ def r05f(repo, chk):
                 names = {n.id for n in ast.walk(t_) if isinstance(n, ast.Name)}
                 if isinstance(t_, ast.Call) and norm(t_.func) in ("re.search", "re.match", "re.fullmatch") or "re.search(" in txt and pol:
                     continue
+                if pol and isinstance(t_, ast.Call) and norm(t_.func) == "any" and len(t_.args) == 1 and isinstance(t_.args[0], (ast.GeneratorExp, ast.ListComp)) \
+                        and len(t_.args[0].generators) == 1 and isinstance(t_.args[0].generators[0].iter, ast.Call) \
+                        and norm(t_.args[0].generators[0].iter.func) == "re.finditer" \
+                        and len(t_.args[0].generators[0].iter.args) == 2 and isinstance(t_.args[0].generators[0].iter.args[1], ast.Name) \
+                        and t_.args[0].generators[0].iter.args[1].id in line_vars and any(norm(q.call.func) == "re.finditer" for q in searches):
+                    continue    # 'some match of the same pattern is one that gets rewritten': the pre-check of the substitution itself
                 if pol and isinstance(t_, ast.Call) and isinstance(t_.func, ast.Attribute) and t_.func.attr == "search" and any(q.call is t_ or norm(q.call) == txt for q in searches):
                     continue    # the compiled form of the same pre-check
                 if isinstance(t_, ast.Compare) and len(t_.ops) == 1 and isinstance(t_.ops[0], ast.In) and pol and isinstance(t_.comparators[0], ast.Name) and t_.comparators[0].id in line_vars:
@@ -523,6 +566,8 @@ def r05f(repo, chk):
                     raise AnalysisError(f"remove_labels: test around the substitution not understood: {txt[:80]}")
             # replacement is the mapped index
             rep = s.args[1] if len(s.args) > 1 else None
+            if isinstance(rep, ast.Lambda) and isinstance(rep.body, ast.IfExp):
+                rep = rep.body.body       # what a rewritten match becomes (the other arm returns the match unchanged, see R05.a)
             okr = False
             if isinstance(rep, ast.Name):
                 ids = live_ids(cfg, s.call)
